@@ -23,7 +23,7 @@ REPO = os.environ.get('TOPSIM_REPO', '/repo')
 
 DET_CASES = [('sim', 'general', 40), ('sim', 'adv', 30), ('sim', 'contend', 30), ('sim', 'real', 15), ('sim', 'plan', 25),
              ('sim', 'batch', 20), ('sim', 'buffer', 20), ('sim', 'delay', 10), ('cluster_ops', '-', 60),
-             ('buffer_ops', '-', 60), ('units', 'units', 15), ('delaymodel', '-', 30), ('pause', 'real', 3), ('pause_sample', 'real', 6), ('taskdrv', '-', 40)]
+             ('buffer_ops', '-', 60), ('units', 'units', 15), ('delaymodel', '-', 30), ('pause', 'real', 3), ('pause_sample', 'real', 6), ('taskdrv', '-', 40), ('plandrv', 'general', 20)]
 
 
 def _det_one(args):
